@@ -237,8 +237,10 @@ static const std::vector<Binding> &bindings()
 {
     static const std::vector<Binding> b = {
         {"r2-x", 2, 0, +1, 0.0, 0.125, {1}, {0.0, 0.0}},
-        {"r3-y-reversed-codim2", 3, 1, -1, 2.5, 0.25, {0, 2}, {1.0, 0.0, -0.5}},
-        {"r3-plane-row", 3, 0, +1, -1.0, 0.0625, {2}, {0.0, 0.75, 0.25}},
+        // (delta must stay below 1: ConstrainedStateSpace::setDelta hands it to
+        // SpaceInformation::setStateValidityCheckingResolution, which takes a FRACTION and throws from 1 on)
+        {"r3-y-reversed-codim2", 3, 1, -1, 2.5, 0.0625, {0, 2}, {1.0, 0.0, -0.5}},
+        {"r3-plane-row", 3, 0, +1, -1.0, 0.03125, {2}, {0.0, 0.75, 0.25}},
     };
     return b;
 }
@@ -477,6 +479,13 @@ static int cmdReplay(const std::string &casesPath, const std::string &tracePath)
     ompl::msg::setLogLevel(ompl::msg::LOG_NONE);
     vt::Trace trace(tracePath);
     trace.emit(json{{"e", "Reset"}});
+    struct Distinct
+    {
+        json rec;
+        long ci, mult;
+    };
+    std::map<std::string, std::size_t> distinct;
+    std::vector<Distinct> order;
     long cases = 0, runs = 0, drift = 0, events = 0, derived = 0;
     std::map<std::string, long> exitsMatched, perKind, driftKeys, interpBranches;
     json firstDrift;
@@ -488,9 +497,18 @@ static int cmdReplay(const std::string &casesPath, const std::string &tracePath)
     for (const json &cs : vt::readNdjson(casesPath))
     {
         const long ci = cases++;
-        auto emit = [&](json rec) {
-            rec["ci"] = ci;       // which model case this record belongs to (for the replay artefact)
-            trace.emit(rec);
+        // the contract is a function of the facts of a record: equal records are judged once (`mult` says how
+        // many runs produced them, `ci` names the first model case that did, for the replay artefact)
+        auto emit = [&](const json &rec) {
+            const std::string key = rec.dump();
+            auto it = distinct.find(key);
+            if (it == distinct.end())
+            {
+                distinct[key] = order.size();
+                order.push_back({rec, ci, 1});
+            }
+            else
+                ++order[it->second].mult;
         };
         const std::string kname = cs["kind"];
         const char kind = kindOf(kname);
@@ -624,9 +642,16 @@ static int cmdReplay(const std::string &casesPath, const std::string &tracePath)
             }
         }
     }
+    for (auto &d : order)
+    {
+        d.rec["ci"] = d.ci;
+        d.rec["mult"] = vt::tlcInt(d.mult);
+        trace.emit(d.rec);
+    }
     trace.close();
     std::cout << "SUMMARY "
               << json{{"cases", cases}, {"runs", runs}, {"derived_calls", derived}, {"events", events}, {"drift", drift},
+                      {"distinct_records", order.size()},
                       {"drift_keys", driftKeys}, {"exits_matched", exitsMatched}, {"per_kind", perKind},
                       {"interp_branches", interpBranches}, {"bindings", bindings().size()}}
                      .dump()
@@ -1634,6 +1659,7 @@ static int cmdRecord(const std::string &tracePath, const std::string &tier, int 
                                                  : std::string("exit ") + std::to_string(WEXITSTATUS(status[i]));
             trace.emit(rec);
             ++events;
+            ++perEvent[rec["e"].get<std::string>()];
             std::cout << (plannerOwn ? "DIED " : "BAD ") << json{{"what", "child-died"}, {"job", rec}}.dump() << std::endl;
         }
         unlink(partPath(i).c_str());
